@@ -333,6 +333,7 @@ func corpusPgJSON() []*modSpec {
 			modFile{"shared/shared.go", "package shared\n\ntype Address struct {\n\tStreet string\n\tCity string `json:\"city\"`\n\tTags []string\n\tGeo Point\n}\n\ntype Point struct{ Lat, Lng float64 }\n"}),
 		mk("json-column-of-an-imported-struct", "package models\n\nimport \"example.com/org/models/shared\"\n\ntype IdUser int64\n\ntype User struct {\n\tId IdUser\n\tName string\n\tHome shared.Address\n\tLast shared.Event\n}\n",
 			modFile{"shared/shared.go", "package shared\n\ntype Address struct {\n\tStreet string\n\tCity string `json:\"city\"`\n\tTags []string\n}\n\ntype Event interface{ isEvent() }\n\ntype Login struct{ At string }\n\ntype Logout struct{ Reason string }\n\nfunc (Login) isEvent() {}\nfunc (Logout) isEvent() {}\n"}),
+		mk("json-embedded-with-option-only-tags", "package models\n\ntype Meta struct {\n\tAuthor string\n\tVersion int\n}\n\ntype Extra struct{ Note string `json:\"note\"` }\n\ntype Doc struct {\n\tMeta `json:\",omitempty\"`\n\tExtra `json:\",inline\"`\n\tTitle string\n}\n\ntype IdArticle int64\n\ntype Article struct {\n\tId IdArticle\n\tContent Doc\n\tHistory []Doc\n}\n"),
 		mk("json-shapes", shapes),
 		mk("json-unions", unions),
 		mk("json-shared-shapes", "package models\n\ntype Meta map[string]int\n\ntype Address struct {\n\tStreet string\n\tTags []string\n}\n\ntype Article struct {\n\tId int64\n\tMeta Meta\n\tBilling Address\n\tShipping Address\n}\n\ntype Comment struct {\n\tId int64\n\tMeta Meta\n\tFrom Address\n}\n"),
